@@ -124,7 +124,8 @@ var (
 	errC09Read = errors.New("verif spool: read error in the message body")
 )
 
-var c09Body = []byte("first line\r\nsecond line\r\n")
+// (8-bit content: what the next hop's 8BITMIME announcement - or its absence - is about)
+var c09Body = []byte("first line\r\nsec\xc3\xb3nd line\r\n")
 
 type c09BadReader struct {
 	b    *c09Buffer
@@ -353,8 +354,34 @@ func c09Remote(t *testing.T, out *vh.Out, op string) {
 	toks := strings.Fields(op)
 	utf8 := toks[2][0] != '0'
 	strict := toks[2][0] == '2'
-	msgUTF8 := !strings.HasSuffix(toks[2], "n")
+	capTok, sizeTok, _ := strings.Cut(toks[2], "/")
+	msgUTF8 := !strings.HasSuffix(capTok, "n")
 	txs, raw := c09Parse(toks[3])
+	// RFC 1870: what the next hop announces as SIZE on the connections of a recipient domain, relative to the
+	// message: s = a limit SMALLER than the message (the next hop enforces it: 552 after the data), e = exactly the
+	// message size, b = far bigger, 0 = "SIZE 0" (no fixed limit); domains not listed: extension not offered;
+	// 8 = no SIZE and the next hop does NOT announce 8BITMIME either (the message body has 8-bit content; it takes it anyway)
+	sizeKind := map[int]byte{}
+	for i := 0; i+1 < len(sizeTok); i += 2 {
+		sizeKind[int(sizeTok[i]-'0')] = sizeTok[i+1]
+	}
+	sizeOf := func(dom int) (bool, int) {
+		switch sizeKind[dom] {
+		case 's':
+			return true, len(c09Body) - 15
+		case 'e':
+			return true, len(c09Body)
+		case 'b':
+			return true, 10 << 20
+		case '0':
+			return true, 0
+		}
+		return false, 0
+	}
+	if sizeTok != "" {
+		raw = true // the go-smtp server announces one SIZE for every connection
+		out.Stat("remote.size.history-with-size-announcements")
+	}
 	if strict {
 		raw = true // the go-smtp server never looks at the parameter
 	}
@@ -410,8 +437,13 @@ func c09Remote(t *testing.T, out *vh.Out, op string) {
 				s.OnData = func(to []string) int {
 					if len(to) > 0 {
 						w := c09Wire(to[0])
-						if d, err := strconv.Atoi(strings.TrimRight(w[strings.Index(w, "@")+1:], "ia.")); err == nil && tx.dataFails(d) {
-							return 451
+						if d, err := strconv.Atoi(strings.TrimRight(w[strings.Index(w, "@")+1:], "ia.")); err == nil {
+							if sizeKind[d] == 's' {
+								return 552 // the next hop enforces the limit it announced
+							}
+							if tx.dataFails(d) {
+								return 451
+							}
 						}
 					}
 					return 0
@@ -454,6 +486,8 @@ func c09Remote(t *testing.T, out *vh.Out, op string) {
 			addrOf[r.id] = a
 			if raw {
 				hop.r.NextRcpt(r.act)
+				hop.r.NextSize(sizeOf(r.dom)) // a connection opened by this AddRcpt is one of domain r.dom
+				hop.r.Next8Bit(sizeKind[r.dom] != '8')
 			}
 			err := d.AddRcpt(ctx, a, smtp.RcptOptions{})
 			if !address.IsASCII(a) {
@@ -498,6 +532,28 @@ func c09Remote(t *testing.T, out *vh.Out, op string) {
 				if accepted[id] > 1 {
 					out.Stat("remote.duplicate.accepted-more-than-once")
 				}
+			}
+		}
+		if sizeTok != "" && len(accepted) > 0 {
+			doms := map[int]bool{}
+			small, other := 0, 0
+			for _, r := range tx.rcpts {
+				if accepted[r.id] > 0 && !doms[r.dom] {
+					doms[r.dom] = true
+					if sizeKind[r.dom] == 's' {
+						small++
+					} else {
+						other++
+					}
+				}
+			}
+			out.Stat(fmt.Sprintf("remote.size.accepted-domains-with-too-small-limit-%d.others-%d", small, min(other, 2)))
+			for d := range doms {
+				k := sizeKind[d]
+				if k == 0 {
+					k = '-'
+				}
+				out.Stat("remote.size.domain-announces." + string(rune(k)))
 			}
 		}
 		col := &c09Collector{}
@@ -928,6 +984,19 @@ func TestVerifC09Remote(t *testing.T) {
 		if r.Chance(50) {
 			flag = "n"
 		}
-		c09Remote(t, out, fmt.Sprintf("C09 remote %c%s %s", utf8, flag, strings.Join(txs, ";")))
+		// RFC 1870 SIZE announcements per recipient domain (positional next hop only): smaller than the message
+		// (enforced), exactly its size, bigger, no fixed limit, not offered
+		size := ""
+		if !classic && r.Chance(45) {
+			for d := 0; d < 3; d++ {
+				if k := "sssseb08--"[r.Intn(10)]; k != '-' {
+					size += fmt.Sprintf("%d%c", d, k)
+				}
+			}
+			if size != "" {
+				size = "/" + size
+			}
+		}
+		c09Remote(t, out, fmt.Sprintf("C09 remote %c%s%s %s", utf8, flag, size, strings.Join(txs, ";")))
 	}
 }
